@@ -51,7 +51,7 @@ class C15(object):
                 "followed by their axis permutation; the optimisers' searches are not modelled")
 
     def gen(self, rng, tier):
-        n_cases = 70 if tier == 'quick' else 900
+        n_cases = 70 if tier == 'quick' else 4000
         for i in range(n_cases):
             c = gen.rand_dist_case(rng, nmin=3, nmax=3, amax=2 if rng.random() < 0.7 else 3, bases=['linear'],
                                    allow_space=False, allow_names=False, max_support=8, klasses=('str', 'tuple'))
